@@ -190,16 +190,12 @@ def local_decls(fn_text):
                     k += 1
                 decls.append((sig[j].text, i, j, k))
         i += 1
-    names = [d[0] for d in decls]
     out = []
     for (name, i, j, k) in decls:
         shape = []
         for q in range(i, min(k + 1, len(sig))):
             t = sig[q]
-            if t.kind == "ident" and t.text in names:
-                shape.append("$%d" % names.index(t.text))
-            else:
-                shape.append(t.text)
+            shape.append("$" if (t.kind == "ident" and t.text == name) else t.text)
         out.append([name, " ".join(shape)])
     return out
 
@@ -238,14 +234,19 @@ def _variable_idents(tx):
 
 
 def rename_map(baseline, current, fn_text, spec):
-    """R16: {old: new} if the function declares the same locals in the same order with the same statements and only names differ"""
+    """R16: {old: new} if the function declares as many locals as recorded and the declarations whose names disappeared pair up, in
+    order, with identically shaped declarations of new names"""
     if baseline is None or len(baseline) != len(current) or baseline == current:
         return {}
-    if any(b[0] != c[0] and b[1] != c[1] for b, c in zip(baseline, current)):   # a renamed declaration must be otherwise identical
+    bn = [b[0] for b in baseline]
+    cn = [c[0] for c in current]
+    removed = [b for b in baseline if b[0] not in cn]
+    added = [c for c in current if c[0] not in bn]
+    if not removed or len(removed) != len(added):
         return {}
-    m = {b[0]: c[0] for b, c in zip(baseline, current) if b[0] != c[0]}
-    if not m:
+    if any(b[1] != c[1] for b, c in zip(removed, added)):   # a renamed declaration must be otherwise identical
         return {}
+    m = {b[0]: c[0] for b, c in zip(removed, added)}
     idents = set(t.text for t in tokenize(fn_text) if t.kind == "ident")
     if any(old in idents for old in m):          # the old name is still in use: not a plain rename
         return {}
@@ -717,6 +718,7 @@ def rewrite_item_text(src, S, log, sites, is_fn=True, outline=None, keep_for=(),
     src = rules.closure_param_patterns(src, log)
     src = rules.clone_from_calls(src, log)
     src = rules.split_or_guard_arms(src, log)
+    src = rules.name_neighbor_iterators(src, log)
     src = rules.adapter_chains(src, log)
     src = rules.split_headers(src, log)
     src = rules.loop_headers(src, log, keep_for, force_raw)
